@@ -670,7 +670,7 @@ def xsd_collapse_py(s: str) -> str:
 def canon_cases(run: Run, impl: Impl) -> None:
     rng = run.rng
     st = run.stats
-    n = run.scale(400, 4000)
+    n = run.scale(1500, 15000)
     ints = [0, -0, 1, -1, 10, -10, 127, -128, 2 ** 63, -2 ** 63, 10 ** 30, -10 ** 30 + 1] + \
            [rng.randint(-10 ** rng.randint(1, 30), 10 ** rng.randint(1, 30)) for _ in range(n)]
     decs = ['0', '-0', '0.0', '-0.00', '1.50', '-1.50', '100', '100.00', '.5', '5.', '+007.0070', '-.001', '000', '0.10',
@@ -731,7 +731,7 @@ def binary_cases(run: Run, impl: Impl) -> None:
     rng = run.rng
     st = run.stats
     from elementpath.datatypes import HexBinary, Base64Binary
-    n = run.scale(300, 3000)
+    n = run.scale(1000, 10000)
     octs = [[], [0], [255], [0, 0], [255, 255, 255], [65, 66, 67, 68], list(range(256))] + \
            [[rng.randrange(256) for _ in range(rng.randint(0, rng.choice([3, 8, 40, 100])))] for _ in range(n)]
     lines = []
@@ -862,6 +862,177 @@ def matrix_cases(run: Run, impl: Impl) -> None:
                             pass
 
 
+# ------------------------------------------------------------------------------ casting corner (model + spec)
+CAST_TARGETS = ['string', 'untypedAtomic', 'boolean', 'decimal', 'double', 'float'] + INT_TYPES
+
+
+def gen_double(rng) -> float:
+    import struct
+    r = rng.random()
+    if r < 0.12:
+        return rng.choice([math.nan, math.inf, -math.inf, 0.0, -0.0])
+    if r < 0.30:
+        return float(rng.choice([1, -1, 10, 100, 127, 128, -129, 255, 256, 65536, 10 ** 5, 10 ** 6, 10 ** 7, 10 ** 15,
+                                 10 ** 16, 10 ** 17, 10 ** 21, 10 ** 22, 2 ** 53, 2 ** 63, 2 ** 64, -2 ** 63, 10 ** 100]))
+    if r < 0.55:
+        e = rng.randint(-12, 22)
+        m = rng.choice([1, 1, 12, 15, 123, 1234567, rng.randint(1, 10 ** rng.randint(1, 17))])
+        x = float(f'{m}e{e}')
+        return -x if rng.random() < 0.3 else x
+    if r < 0.75:
+        return float(g_double(rng).replace('+INF', 'INF')) if True else 0.0
+    if r < 0.9:
+        return rng.choice([1e-4, 9.999e-5, 1e-5, 1e-6, 9.99e-7, 1e-7, 1e-10, 1.5e-10, 999999.0, 1e6, 1234567.0, 1e15,
+                           123456789012345680.0, 1e16, 1.5e16, 1e-300, 5e-324, 1.7976931348623157e308, 0.1, 0.5, 0.25,
+                           1.5, 2.5, -1.5, 100000.0, 123456.789]) * rng.choice([1, 1, -1])
+    return struct.unpack('<d', struct.pack('<Q', rng.getrandbits(64)))[0]
+
+
+def dbl_fields(x: float) -> str:
+    if math.isnan(x):
+        return 'X=nan R=' + cps('nan')
+    if math.isinf(x):
+        return ('X=inf' if x > 0 else 'X=-inf') + ' R=' + cps(repr(x))
+    n, d = abs(x).as_integer_ratio()
+    k = d.bit_length() - 1
+    neg = 1 if math.copysign(1.0, x) < 0 else 0
+    return f'X={neg}:{n}:{k} R={cps(repr(x))}'
+
+
+def gen_atom(rng):
+    """-> (kind, python value for the XPath variable, request fields)"""
+    from elementpath.datatypes import UntypedAtomic
+    r = rng.random()
+    if r < 0.40:
+        t = rng.choice(['integer', 'decimal', 'double', 'boolean', 'byte', 'unsignedByte', 'long', 'string'])
+        s = gen_string(rng, t)
+        if rng.random() < 0.5:
+            return 'str', s, f'K=str S={cps(s)}'
+        return 'untyped', UntypedAtomic(s), f'K=untyped S={cps(s)}'
+    if r < 0.45:
+        b = rng.random() < 0.5
+        return 'bool', b, f'K=bool B={1 if b else 0}'
+    if r < 0.62:
+        try:
+            v = int(g_integer(rng, rng.choice(INT_TYPES)))
+        except ValueError:
+            v = rng.randint(-300, 300)
+        if rng.random() < 0.05:
+            v = rng.choice([2 ** 1024 - 2 ** 970, 2 ** 1024 - 2 ** 970 - 1, -(2 ** 1024), 10 ** 400])
+        return 'int', v, f'K=int I={v}'
+    if r < 0.78:
+        s = g_decimal(rng)
+        if rng.random() < 0.3:
+            s = rng.choice(['0', '-0', '0.0', '-0.00', '1.50', '-1.50', '100', '100.00', '.5', '5.', '127.9', '128.0', '-128.9',
+                            '-129.0', '255.99', '0.999', '-0.999', '9223372036854775807.5', '1' + '0' * 400])
+        return 'dec', Decimal(s), f'K=dec S={cps(s)}'
+    x = gen_double(rng)
+    return 'dbl', x, 'K=dbl ' + dbl_fields(x)
+
+
+def cast_value_text(v, target: str, ref=None):
+    """(raw text in the model's vocabulary, value-normalised text in the spec's vocabulary)"""
+    from elementpath.datatypes import UntypedAtomic
+    if isinstance(v, bool):
+        t = 'ok:bool:' + ('true' if v else 'false')
+        return t, t
+    if isinstance(v, float):
+        c = 'nan' if math.isnan(v) else ('inf' if v == math.inf else '-inf' if v == -math.inf else 'num')
+        return 'ok:dbl:' + c, 'ok:dbl:' + c
+    if isinstance(v, int):
+        return f'ok:int:{int(v)}', f'ok:int:{int(v)}'
+    if isinstance(v, Decimal):
+        tp = v.as_tuple()
+        coef = int(''.join(map(str, tp.digits)))
+        if not isinstance(tp.exponent, int) or tp.exponent > 0:
+            return f'ok:dec:?{v!r}', f'ok:dec:?{v!r}'
+        return f'ok:dec:{tp.sign}:{coef}:{-tp.exponent}', 'ok:dec:' + norm_dec_text(v)[3:]
+    if isinstance(v, UntypedAtomic):
+        return 'ok:untyped:' + cps(v.value), 'ok:untyped:' + cps(v.value)
+    if isinstance(v, str):
+        return 'ok:str:' + cps(v), 'ok:str:' + cps(v)
+    return 'ok:?' + value_text(v), 'ok:?' + value_text(v)
+
+
+def cast_cases(run: Run, impl: Impl) -> None:
+    rng = run.rng
+    st = run.stats
+    n = run.scale(5000, 60000)
+    seeds = []
+    from elementpath.datatypes import UntypedAtomic
+    for x in [1e-7, 1e-5, 1e-6, 1e6, 1e15, 1e16, 1e21, 1e100, 1.5e-7, 1.5e-10, 1e-10, 0.00001, 123456.789, -0.0, 0.0, math.nan,
+              math.inf, -math.inf, 1.0, 100.0, 1234567.0, 0.1]:
+        for t in ('string', 'untypedAtomic', 'decimal', 'integer', 'boolean', 'byte'):
+            seeds.append((('dbl', x, 'K=dbl ' + dbl_fields(x)), t))
+    for s in ['+INF', ' 12 ', '1_0', '1 2', 'true', '-0.0', '1e400']:
+        for t in ('double', 'float', 'decimal', 'integer', 'boolean', 'string', 'untypedAtomic'):
+            seeds.append((('str', s, f'K=str S={cps(s)}'), t))
+            seeds.append((('untyped', UntypedAtomic(s), f'K=untyped S={cps(s)}'), t))
+    for s in ['-0.0', '1.50', '100.00', '-128.9', '0.999']:
+        for t in CAST_TARGETS:
+            seeds.append((('dec', Decimal(s), f'K=dec S={cps(s)}'), t))
+    cases = seeds + [(gen_atom(rng), rng.choice(CAST_TARGETS)) for _ in range(n)]
+    versions = [('1.0', '10'), ('1.1', '11')]
+    lines = []
+    for (kind, val, fields), t in cases:
+        for _, vk in versions:
+            lines.append(f'op=cast V={vk} {fields} T={t}')
+    ans = iter(run.driver('C10', lines))
+    for (kind, val, fields), t in cases:
+        for v, vk in versions:
+            a = next(ans)
+            if not a.startswith('model='):
+                run.disagree(Disagreement({'request': fields, 'target': t}, impl='driver:' + a, what='protocol'))
+                continue
+            f = dict(kv.split('=', 1) for kv in a.split(' ') if '=' in kv)
+            mm, mn, sp, fl = f.get('model'), f.get('modelN'), f.get('spec'), f.get('inK', '')
+            case = {'source_kind': kind, 'source': repr(val), 'request': fields, 'target': t, 'xsd': v}
+            st.case(['cast', fields, t, v], nontrivial=True)
+            st.count(f'cast:{kind}->{t if t not in INT_TYPES else "integer-family"}')
+            tags = (['F10w'] if 'w' in fl and kind in ('str', 'untyped') else []) + (['F10b'] if 'd' in fl else []) + \
+                   (['F10o'] if 'o' in fl else [])
+            results = {}
+            for pn in ('2', '31'):
+                results[f'cast{pn}'] = impl.xpath(pn, v, f'$s cast as xs:{t}', {'s': val})
+                results[f'fn{pn}'] = impl.xpath(pn, v, f'xs:{t}($s)', {'s': val})
+                results[f'castable{pn}'] = impl.xpath(pn, v, f'$s castable as xs:{t}', {'s': val})
+            for name, (k, r) in results.items():
+                if name.startswith('castable'):
+                    got = ('1' if r is True else '0' if r is False else f'?{r!r}') if k == 'ok' else r
+                    mexp = '1' if mm.startswith('ok') else '0'
+                    sexp = '1' if sp.startswith('ok') else '0'
+                    if got != sexp:
+                        run.disagree(Disagreement(dict(case, path=name), impl=got, model=mexp, spec=sexp,
+                                                  what='castable-vs-spec', site='_xpath2_operators.py castable', tags=tags))
+                    elif got != mexp:
+                        run.disagree(Disagreement(dict(case, path=name), impl=got, model=mexp, what='castable-model',
+                                                  site='_xpath2_operators.py castable'))
+                    continue
+                if k == 'ok':
+                    raw, norm = cast_value_text(r, t)
+                    if t in ('double', 'float') and isinstance(r, float) and not math.isnan(r):
+                        # finite / overflowed value: CPython's own conversion is the trusted reference
+                        try:
+                            src = xsd_collapse_py(val.value if kind == 'untyped' else val) if kind in ('str', 'untyped') else val
+                            ref = float_ref(t, src) if not (kind == 'dbl') else float_ref(t, repr(val))
+                            if fhex(ref) != fhex(r):
+                                run.disagree(Disagreement(dict(case, path=name), impl=fhex(r), model=fhex(ref), spec=fhex(ref),
+                                                          what='cast-double-value', site='get_double / Float.__new__'))
+                            if mm == 'ok:dbl:num':
+                                raw = norm = 'ok:dbl:num'
+                        except (ValueError, OverflowError):
+                            pass
+                else:
+                    raw, norm = r, 'ERR'
+                    st.count('cast:err:' + r)
+                if norm != sp:
+                    run.disagree(Disagreement(dict(case, path=name), impl=norm, model=mn, spec=sp, what='cast-vs-F&O',
+                                              site='_xpath2_constructors.py cast__*', tags=tags))
+                elif raw != mm:
+                    run.disagree(Disagreement(dict(case, path=name), impl=raw, model=mm, what='cast-model',
+                                              site='_xpath2_constructors.py cast__*'))
+
+
 # ------------------------------------------------------------------------------ translator
 def translate_tables(run: Run) -> dict:
     import re
@@ -956,6 +1127,7 @@ def search(run: Run):
         lexical_cases(sub, impl, cases[i:i + 3000])
     canon_cases(sub, impl)
     binary_cases(sub, impl)
+    cast_cases(sub, impl)
     run.notes.append(f'search: {len(cases)} exhaustive small-scope lexical cases + canon + binary, '
                      f'{len(sub.disagreements)} disagreements')
     return sub.disagreements
@@ -1015,7 +1187,7 @@ def body(run: Run) -> int:
         rng = run.rng
         types = [t for t in sorted(impl.types) if t not in SKIPPED_TYPES]
         cases = [c for c in CORPUS if c[0] in impl.types]
-        per_type = run.scale(120, 1500)
+        per_type = run.scale(350, 3000)
         for t in types:
             k = per_type * (2 if t in MODELLED else 1)
             cases += [(t, gen_string(rng, t)) for _ in range(k)]
@@ -1031,6 +1203,7 @@ def body(run: Run) -> int:
             lexical_cases(run, impl, cases[i:i + 3000])
         canon_cases(run, impl)
         binary_cases(run, impl)
+        cast_cases(run, impl)
         matrix_cases(run, impl)
     except DriverError as e:
         run.broken.append('driver:C10 ' + str(e)[:300])
